@@ -349,8 +349,10 @@ class Net:
     def open_server_link(self, frag_c2s=None, frag_s2c=None, drain=True):
         link = Link(self.loop, frag_c2s, frag_s2c)
         link.a_writer.yielding = link.b_writer.yielding = self.yield_drains
-        handler_func = self.server_tcp.ConnectionHandler.handler(self.router)
-        link.server_task = self.loop.create_task(handler_func(link.b_reader, link.b_writer))
+        # the callback asyncio.start_server is given by the public TCP server class
+        if getattr(self, "tcp_server", None) is None:
+            self.tcp_server = self.server_tcp.TCP(self.router)
+        link.server_task = self.loop.create_task(self.tcp_server.client_connected(link.b_reader, link.b_writer))
         link.net = self
         self.links.append(link)
         if drain:
